@@ -10,11 +10,13 @@ NRegs(ev) == Len(ev.regs)
 RegsOf(ev) == [k \in 0..(NRegs(ev) - 1) |-> VecOf(ev.regs[k + 1])]
 BadEntries(ev) == \E k \in 1..NRegs(ev) : ~EntriesOK(ev.p, ev.regs[k])
 TPure(ev) ==
-  /\ ev.e \in {"Gcd", "Inv", "Prime", "Crash"}
+  /\ ev.e \in {"Gcd", "Inv", "Prime", "Crash", "GcdBig", "InvBig"}
   /\ UNCHANGED r
   /\ Report(CASE ev.e = "Gcd" -> GcdViol(ev.a, ev.b, ev.g, ev.x, ev.y)
               [] ev.e = "Inv" -> InvViol(ev.a, ev.p, ev.threw, ev.x)
               [] ev.e = "Prime" -> (IF ev.threw THEN {"is_prime-threw"} ELSE PrimeViol(ev.p, ev.res))
+              [] ev.e = "GcdBig" -> GcdBigViol(ev)
+              [] ev.e = "InvBig" -> (IF ev.threw THEN {"threw-although-invertible"} ELSE InvBigViol(ev))
               [] ev.e = "Crash" -> {"crash"})
 TFPReset(ev) == /\ ev.e = "FP" /\ ev.op = "Reset"
                 /\ Report(IF BadEntries(ev) THEN {"entries-not-canonical"} ELSE {})
